@@ -73,17 +73,64 @@ def _exc(e):
     return [type(e).__name__, re.sub(r"0x[0-9a-fA-F]+", "0x?", str(e))[:300]]
 
 
+def _namespaces(scenario):
+    ds = scenario.dynamicScenario
+    out = []
+    if ds._dummyNamespace:
+        out.append(ds._dummyNamespace)
+    for f in (getattr(type(ds), "_setup", None), getattr(type(ds), "_compose", None)):
+        g = getattr(f, "__globals__", None)
+        if g is not None and all(g is not o for o in out):
+            out.append(g)
+    for ns in (scenario.behaviorNamespaces or {}).values():
+        if all(ns is not o for o in out):
+            out.append(ns)
+    return out
+
+
 def dep_labels(scenario):
     """Stable labels for Scenario.dependencies (to attribute differences to their order)."""
-    ns = scenario.dynamicScenario._dummyNamespace or {}
+    from rt import canon
+
     names = {}
-    for k, v in ns.items():
-        if not k.startswith("_"):
-            names.setdefault(id(v), k)
+    for ns in _namespaces(scenario):
+        for k, v in list(ns.items()):
+            if not k.startswith("_"):
+                names.setdefault(id(v), k)
+    objs = {id(o): i for i, o in enumerate(scenario.objects)}
     out = []
     for d in scenario.dependencies:
-        out.append(names.get(id(d)) or type(d).__name__)
+        lab = names.get(id(d))
+        if lab is None and id(d) in objs:
+            lab = f"object#{objs[id(d)]}"
+        if lab is None:
+            try:
+                lab = json.dumps(canon.canon(d))
+            except Exception:
+                lab = type(d).__name__
+        out.append(lab)
     return out
+
+
+def normalize_deps(scenario):
+    """Diagnostic mode: put the requirement-dependency segment of Scenario.dependencies (built from a
+    set in the code under test) into a canonical order, so that any remaining difference between
+    processes has another cause."""
+    from scenic.core.distributions import Samplable
+
+    deps = list(scenario.dependencies)
+    labels = dep_labels(scenario)
+    lo = len(scenario._instances) + sum(1 for p in scenario.params.values() if isinstance(p, Samplable))
+    nb = 0
+    for ns in scenario.behaviorNamespaces.values():
+        nb += sum(1 for v in ns.values() if isinstance(v, Samplable))
+    hi = len(deps) - nb
+    if hi - lo < 2:
+        return 0
+    seg = sorted(zip(labels[lo:hi], range(lo, hi)))
+    deps[lo:hi] = [scenario.dependencies[i] for _, i in seg]
+    scenario.dependencies = tuple(deps)
+    return hi - lo
 
 
 def last_per_tag(log):
@@ -137,6 +184,9 @@ def main():
         out["compile_error"] = _exc(e)
         json.dump({"dump": out, "meta": meta}, sys.stdout)
         return
+    meta["deps_raw"] = dep_labels(scenario)
+    if spec.get("normalize_deps"):
+        meta["normalized_segment"] = normalize_deps(scenario)
     meta["deps"] = dep_labels(scenario)
     meta["n_user_reqs"] = len(scenario.userRequirements)
     meta["n_default_reqs"] = len(scenario.defaultRequirements)
